@@ -207,7 +207,7 @@ theorem ok_bind {α β : Type} (a : α) (f : α → Except Err β) : (Except.ok 
 /-! ### integers -/
 
 theorem ofInt_ok {i : Int} (h1 : -intLimit ≤ i) (h2 : i ≤ intLimit) : ∃ y : F, ofInt i = some y :=
-  CompatLaws.ofInt_intLimit i h1 h2
+  LawfulFloatOps.ofInt_isSome i (by simpa [intLimit] using h1) (by simpa [intLimit] using h2)
 
 theorem intValidate_self {lo hi i : Int} (h1 : lo ≤ i) (h2 : i ≤ hi) (h : ∃ y : F, ofInt i = some y) :
     intValidate (F := F) lo hi (.int i) = .ok i := by
@@ -520,15 +520,15 @@ end
 /-! ### float properties -/
 
 theorem zero_finite (D : Consts F) (hD : D.OK) : isFinite D.zero = true :=
-  LawfulFloatOps.ofInt_finite 0 D.zero hD.zero_eq
+  CompatLaws.ofInt_finite 0 D.zero (by decide) (by decide) hD.zero_eq
 
 theorem zero_nonneg (D : Consts F) (hD : D.OK) : DType.nonneg D.zero = true := by
-  unfold DType.nonneg
+  unfold DType.nonneg isNonneg
   rw [hD.zero_eq]
   exact LawfulFloatOps.le_refl _ (notNaN_of_finite (zero_finite D hD))
 
 theorem le_zero_of_nonneg (D : Consts F) (hD : D.OK) {x : F} (h : DType.nonneg x = true) : le D.zero x = true := by
-  unfold DType.nonneg at h
+  unfold DType.nonneg isNonneg at h
   rw [hD.zero_eq] at h
   exact h
 
@@ -549,9 +549,9 @@ theorem propDouble_of (D : Consts F) (hD : D.OK) {lo hi x : F} {v : PVal F} (hv 
   have hc : doubleCall v = .ok x := by
     simp [doubleCall, hv, hn, median3_inside hb.1 hb.2]
   have l1 : le (sub lo (tolerance D.relRes D.zero x)) x = true :=
-    LawfulFloatOps.le_trans _ _ _ (CompatLaws.sub_nonneg_le lo _ hlo ht.1 ht.2) h1
+    LawfulFloatOps.sub_le lo x _ hlo h1 ht.2
   have l2 : le x (add hi (tolerance D.relRes D.zero x)) = true :=
-    LawfulFloatOps.le_trans _ _ _ h2 (CompatLaws.le_add_nonneg hi _ hhi ht.1 ht.2)
+    LawfulFloatOps.le_add x hi _ hhi h2 ht.2
   simp [propDouble, doubleValidate, hc, l1, l2, median3_inside h1 h2]
 
 theorem propDouble_self (D : Consts F) (hD : D.OK) {lo hi x : F} (hc : addZero x = x)
@@ -658,7 +658,7 @@ theorem aligned_iff {s x : F} (h : DInfo.Aligned s x) :
 theorem le_zero_of_positive (D : Consts F) (hD : D.OK) {s : F} (h : DType.positive s = true) : le D.zero s = true := by
   unfold DType.positive at h
   rw [hD.zero_eq] at h
-  obtain ⟨n1, n2⟩ := LawfulFloatOps.lt_notNaN _ _ h
+  obtain ⟨n1, n2⟩ := CompatLaws.lt_notNaN _ _ h
   have := (LawfulFloatOps.lt_iff D.zero s n1 n2).1 h
   exact Frappy.Lemmas.C01.le_of_not_le n2 n1 this
 
